@@ -116,6 +116,12 @@ fn main() {
         loop { if it.curr_op().is_some() { let (loc, end) = it.curr_loc(); println!("  {:?} end={}", loc, end); n += 1; } if it.next().is_none() { break; } }
         println!("visited {n} (expected 6: m0.f0 nop end, m2.f0 nop nop nop end)");
     });
+    run("S15 set_fn_name on an imported function that follows a non-function import", || {
+        let w = wat::parse_str(r#"(module (import "m" "mem" (memory 1)) (import "m" "f" (func $f)) (import "m" "g" (func $g)) (func $h call $f))"#).unwrap();
+        let mut m = Module::parse(&w, false).unwrap();
+        m.set_fn_name(FunctionID(0), "renamed_f".into());
+        show("S15", &m.encode());
+    });
     run("S10 set_fn_name on added import", || {
         let w = wat::parse_str(r#"(module (func $a))"#).unwrap();
         let mut m = Module::parse(&w, false).unwrap();
